@@ -35,7 +35,8 @@ RunOutput run_krylov(const Plan& plan, const RunOpts&)
     }
     WorldRef ref;
     build_ref_op(*world, ref);
-    const Calib& calib = Calib::get(spec.family);
+    const int cgroup = (spec.mclass == M_LOWRANK) ? 1 : 0;
+    const Calib& calib = Calib::get(spec.family, cgroup);
     KrylovObserver obs;
     obs.ref = &ref;
     obs.lanczos = K->lanczos();
@@ -44,6 +45,7 @@ RunOutput run_krylov(const Plan& plan, const RunOpts&)
     obs.general = family_is_general(spec.family);
     obs.in_solver = false;
     obs.skip_after_expand = true;
+    obs.max_restarts = (spec.scalar == S_LDOUBLE) ? 8 : 20;
     obs.out = &out.viol;
     ctx.observer = &obs;
     current_ctx() = &ctx;
@@ -104,7 +106,7 @@ RunOutput run_krylov(const Plan& plan, const RunOpts&)
     }
     out.stats.add("krylov.breakdowns", obs.stats.breakdowns);
     out.stats.add("krylov.skipped_known_regime", obs.skipped_known_regime);
-    const std::string fam = std::string(".") + family_name(spec.family);
+    const std::string fam = std::string(cgroup ? ".lowrank." : ".") + family_name(spec.family);
     out.stats.max("ratio.krylov_factorization" + fam, (double) obs.stats.max_fac);
     out.stats.max("ratio.krylov_orthonormality" + fam, (double) obs.stats.max_orth);
     out.stats.max("ratio.krylov_vf" + fam, (double) obs.stats.max_vf);
